@@ -279,6 +279,13 @@ def run(rep: Report, prog: Program, tier: str) -> None:
         ("RtcpPsfbPacket", pkt("RtcpPsfbPacket", fmt=pli, ssrc=1, media_ssrc=2, fci=b""), {"S2"}),
         ("RtcpPsfbPacket", pkt("RtcpPsfbPacket", fmt=app, ssrc=1, media_ssrc=0, fci=("REMB", [5, 6, 8])), {"S5", "S6"}),
         ("RtcpPsfbPacket", pkt("RtcpPsfbPacket", fmt=app, ssrc=1, media_ssrc=0, fci=("BAD", [])), set()),
+        # unknown SSRCs first / in the middle must not hide the registered ones behind them
+        ("RtcpPsfbPacket", pkt("RtcpPsfbPacket", fmt=app, ssrc=1, media_ssrc=0, fci=("REMB", [8, 5, 9, 6])), {"S5", "S6"}),
+        ("RtcpByePacket", pkt("RtcpByePacket", sources=[7, 1, 8, 3]), {"R1", "R3"}),
+        ("RtcpSrPacket", pkt("RtcpSrPacket", ssrc=1, reports=[rep_info(9), rep_info(2)]), {"R1", "S2"}),
+        ("RtcpRrPacket", pkt("RtcpRrPacket", ssrc=7, reports=[rep_info(9), rep_info(5)]), {"S5"}),
+        ("RtcpRtpfbPacket", pkt("RtcpRtpfbPacket", fmt=1, ssrc=1, media_ssrc=9, lost=[]), set()),
+        ("RtcpPsfbPacket", pkt("RtcpPsfbPacket", fmt=pli, ssrc=1, media_ssrc=9, fci=b""), set()),
         ("RtcpSdesPacket", pkt("RtcpSdesPacket", chunks=[]), set()),
     ]
     covered = {t[0] for t in table}
@@ -321,3 +328,44 @@ def run(rep: Report, prog: Program, tier: str) -> None:
         else:
             rep.ok("C12-RTCP", f"route_rtcp case {desc}", sample=f"recipients {sorted(got)}")
     rep.analysed["rtcp_packet_types"] = union_names
+
+
+    # ---------------- C12-FRESH: a routing decision is used at once, not computed ahead of other deliveries
+    rep.rule("C12-FRESH", "routing decisions are taken immediately before the delivery they are used for", min_instances=2)
+    tcls = prog.cls("rtcdtlstransport.RTCDtlsTransport")
+    n_route = 0
+    for fi in tcls.methods.values():
+        parents: Dict[int, ast.AST] = {}
+        for p_ in ast.walk(fi.node):
+            for ch in ast.iter_child_nodes(p_):
+                parents[id(ch)] = p_
+        for n in walk_no_nested(fi.node):
+            if not (isinstance(n, ast.Call) and isinstance(n.func, ast.Attribute) and n.func.attr in ("route_rtp", "route_rtcp")):
+                continue
+            n_route += 1
+            par = parents.get(id(n))
+            good = False
+            why = "its result is not consumed by the statement that delivers the packet"
+            if isinstance(par, ast.For) and par.iter is n and isinstance(par.target, ast.Name):
+                awaits = [a for b in par.body for a in ast.walk(b) if isinstance(a, ast.Await)]
+                good = bool(awaits) and all(isinstance(a.value, ast.Call) and unparse(a.value.func).startswith(par.target.id + "._handle_") for a in awaits)
+                why = "the loop over its result awaits something other than the recipients' handlers"
+            elif isinstance(par, ast.Assign) and len(par.targets) == 1 and isinstance(par.targets[0], ast.Name):
+                var = par.targets[0].id
+                blkp = parents.get(id(par))
+                blk = next((lst for name in ("body", "orelse", "finalbody") for lst in [getattr(blkp, name, None)] if isinstance(lst, list) and any(x is par for x in lst)), [])
+                idx = next((i for i, x in enumerate(blk) if x is par), -1)
+                nxt = blk[idx + 1] if 0 <= idx < len(blk) - 1 else None
+                if nxt is not None:
+                    awaits = [a for a in ast.walk(nxt) if isinstance(a, ast.Await)]
+                    good = bool(awaits) and all(isinstance(a.value, ast.Call) and unparse(a.value.func).startswith(var + "._handle_") for a in awaits)
+                why = "other suspension points lie between the routing decision and the delivery"
+            elif isinstance(par, (ast.ListComp, ast.GeneratorExp, ast.SetComp, ast.DictComp, ast.comprehension, ast.Tuple, ast.List)):
+                why = "routing decisions for several packets are collected before any of them is delivered"
+            if good:
+                rep.ok("C12-FRESH", f"{fi.qualname}: {unparse(n)}", sample="consumed by the very next delivery")
+            else:
+                rep.fail(mk_finding(prog, PROP, "C12-FRESH", fi, n, f"{why}: a receiver or sender unregistered while an earlier packet of the same datagram is being handled would still "
+                                    f"get the later packets", construct="stale routing decision " + n.func.attr))
+    if n_route < 2:
+        raise AnalysisError("route_rtp / route_rtcp call sites not found in RTCDtlsTransport")
